@@ -41,7 +41,9 @@ NumericRule(r) == r.gt # "" \/ r.gte # "" \/ r.lt # "" \/ r.lte # "" \/ (r.hasCo
 ProbeHow(e, dev) ==
   CASE e.what = "value" ->
          IF RuleAccepts(e.rules, e.pos) = e.schemaAccepts THEN "ok"
-         ELSE IF "D_rules_numeric_on_string_int64" \in dev /\ e.kind \in Int64Kinds /\ e.int64AsString THEN "D_rules_numeric_on_string_int64"
+         \* (bounds only: const / in of a string-encoded 64-bit integer are published as strings)
+         ELSE IF "D_rules_numeric_on_string_int64" \in dev /\ e.kind \in Int64Kinds /\ e.int64AsString
+                 /\ (e.rules.gt # "" \/ e.rules.gte # "" \/ e.rules.lt # "" \/ e.rules.lte # "") THEN "D_rules_numeric_on_string_int64"
          ELSE IF "D_rules_other_int_kinds" \in dev /\ e.kind \in {"uint32", "uint64", "sint32", "sint64", "fixed32", "fixed64", "sfixed32", "sfixed64"}
               THEN "D_rules_other_int_kinds"
          ELSE IF "D_rules_exclusive_bounds" \in dev /\ (e.rules.gt # "" \/ e.rules.lt # "") THEN "D_rules_exclusive_bounds"
